@@ -22,6 +22,41 @@ PROPS = {
     },
 }
 
+_CODEC_NOTE = ('Proved for all inputs (no bound): every integer / list-header / raw-bytes / nibble-packing writer of the encoder '
+               'equals the reference encoding (spec/wabinary.py), every matching reader of the decoder equals the reference '
+               'decoding, and the spec-level round-trip lemmas (rt_int8/16/20/31, rt_list_start, rt_pack, rt_packed) connect them. '
+               'Token/JID strings and the recursive tree functions (writeString, writeInternal, readString, nextTreeInternal, '
+               'readList, readAttributes) are NOT yet under discharged contracts: that level is decided by the bounded stand-in only.')
+
+PROPS['C01'] = {
+    'sidecars': ['contracts/C01_codec.py'],
+    'level': 'other',
+    'explanation': _CODEC_NOTE + ' Bounded stand-in: real encoder -> real decoder on generated well-formed trees with strict comparison.',
+    'native_checks': [{'name': 'c01_roundtrip', 'cmd': ['bounded/codec_check.py', 'c01'],
+                       'bound': 'quick: 400 random trees (depth<=3, lists up to 300, attrs up to 200) + 3 trees with >=1 MiB payloads + every '
+                                'dictionary token + packed strings of every length 1..255; thorough: 6000 + 25'}],
+    'assumptions': ['binascii.hexlify / unhexlify, bytes.upper, struct, zlib modelled by axioms (pyvc/builtins_model.py); '
+                    'the finite-domain ones are validated natively',
+                    'packed_seq / dec_packed_val are uninterpreted spec functions characterised by an assumed definitional axiom'],
+    'technique': 'contract-based deductive verification of the leaf functions (VCs from the real ast, z3/cvc5); '
+                 'tree level: bounded native round trip (labelled bounded)',
+}
+PROPS['C02'] = {
+    'sidecars': ['contracts/C01_codec.py'],
+    'level': 'other',
+    'explanation': _CODEC_NOTE + ' Bounded stand-in: real encoder -> independent reference decoder; reference encoder with random choice '
+                   'vectors -> real decoder; dictionary compared entry by entry with the reference copy; table facts.',
+    'native_checks': [{'name': 'c02_conformance', 'cmd': ['bounded/codec_check.py', 'c02'],
+                       'bound': 'same tree set as C01 x 2 (quick) / 6 (thorough) random choice vectors incl. deflate; 1260 dictionary entries '
+                                'compared exhaustively'}],
+    'assumptions': [
+        'the reference dictionary copy (spec/data/wa_dictionary.json) is a snapshot of the pinned commit: it detects later shifts, '
+        'insertions or edits, not an error already present at the pin',
+        'the independent implementation is bounded/wa_ref.py, written from the format grammar (DESIGN.md appendix B)'],
+    'technique': 'contract-based deductive verification of the leaf functions against a reference spec; '
+                 'conformance of whole frames: bounded differential check against an independent implementation',
+}
+
 NOT_APPLICABLE = {
     'C11': 'quantifies over thread interleavings (2-4 sender threads through lock/queue operations); no verifier available here '
            'has a thread or permission model and sequential contracts cannot express "for every schedule" (DESIGN.md section 8)',
